@@ -128,11 +128,19 @@ def gen_project(rnd, idx):
     return files, truth, decoys, feats
 
 
+ANCESTORS = [None, None, None, "target", ".git", "x/target/y", "my.git", "target2", ".github"]
+
+
 def run_case(a):
     cli, idx, seed, mode = a
     rnd = random.Random(seed)
     files, truth, decoys, feats = gen_project(rnd, idx)
-    g = proj.generate(cli, files, mode=mode, tag="c03")
+    # the exclusion of target/ and .git/ is about directories UNDER the project path: an ancestor directory of the project
+    # that happens to be called target or .git must exclude nothing (DESIGN 4.2)
+    anc = ANCESTORS[idx % len(ANCESTORS)]
+    if anc:
+        feats.add("ancestor-dir:" + anc.split("/")[-2 if anc.endswith("/y") else -1])
+    g = proj.generate(cli, files, mode=mode, tag="c03", src_name=(anc + "/app/src") if anc else "src")
     try:
         if g.run.timed_out:
             return {"inconclusive": "watchdog"}
@@ -143,7 +151,7 @@ def run_case(a):
             return dict(res, witness=proj.witness_of(files, mode))
         out = g.output
         if "commands.ts" not in out.mods:
-            res["viol"].append(("C03 commands.ts-missing", "no commands.ts although %d commands exist; stdout=%s" % (len(truth), g.run.out[-200:])))
+            res["viol"].append(("C03 commands.ts-missing%s" % "".join(" " + f for f in sorted(feats) if f.startswith("ancestor-dir")), "no commands.ts although %d commands exist; stdout=%s" % (len(truth), g.run.out[-200:])))
             return dict(res, witness=proj.witness_of(files, mode))
         if out.mods["commands.ts"].errors:
             pf = common.parse_fault(out, ("commands.ts",))
@@ -158,6 +166,7 @@ def run_case(a):
             cause = "attr=%s vis=%s async=%s" % (info["attr"], info["vis"], info["async"])
             if not got:
                 extra = " unparsable-neighbour" if "unparsable-neighbour" in feats else ""
+                extra += "".join(" " + f for f in sorted(feats) if f.startswith("ancestor-dir"))
                 res["viol"].append(("C03 missing-wrapper %s%s" % (cause, extra), "command %s (%s, depth %d) has no wrapper calling invoke(%r)" % (name, info["file"], info["depth"], name)))
                 continue
             if len(got) > 1:
